@@ -120,8 +120,11 @@ pub fn gen(prop: &str, seed: u64, index: u64, _tier: Tier) -> Case {
     let (inputs, recursive) = gen::gen_inputs(&mut prng, &a, false);
     let mut params = BTreeMap::new();
     // C09 has both kinds (crash twins, and errno cases for "nothing correct is rewritten")
-    let kind = if prop == "C08" || (prop == "C09" && index % 120 < 60) { "crash" } else { "errno" };
-    let mode = if kind == "crash" {
+    // C10: every third syscall-level case is a kill (the write-set rule holds at every crash point)
+    let kind = if prop == "C08" || (prop == "C09" && index % 120 < 60) || (prop == "C10" && (index / 60) % 3 == 1) { "crash" } else { "errno" };
+    let mode = if kind == "crash" && prop == "C10" {
+        *rng.pick(&["build", "needed", "verify-fresh", "clean"])
+    } else if kind == "crash" {
         // any interrupted run, not only a build, may have left the tree as it is
         *rng.pick(&["build", "build", "build", "needed", "needed", "verify-fresh", "clean"])
     } else if prop == "C09" {
@@ -129,7 +132,8 @@ pub fn gen(prop: &str, seed: u64, index: u64, _tier: Tier) -> Case {
     } else if prop == "C10" {
         *rng.pick(&["build", "needed", "verify-fresh", "verify-fresh", "clean", "clean", "clean"])
     } else {
-        *rng.pick(&["build", "build", "needed", "needed", "verify-fresh", "verify-tampered", "clean"])
+        // verify-stale: verify over a tree that was built from an earlier version of one source
+        *rng.pick(&["build", "build", "needed", "needed", "verify-fresh", "verify-tampered", "verify-stale", "clean"])
     };
     params.insert("sys".into(), kind.into());
     params.insert("mode".into(), mode.into());
@@ -142,6 +146,8 @@ pub fn gen(prop: &str, seed: u64, index: u64, _tier: Tier) -> Case {
         (*rng.pick(if prop == "C09" && kind == "errno" {
             // everything is up to date: nothing may be rewritten
             &["built"][..]
+        } else if mode == "verify-stale" {
+            &["built-edited"][..]
         } else if mode == "build" || mode == "needed" {
             &["pristine", "pristine", "built", "built-edited"][..]
         } else if mode == "clean" && prop == "C10" {
@@ -393,7 +399,7 @@ pub fn run(case: &Case, ctx: &mut Ctx) -> CaseOutcome {
     let repair_k: usize = case.params.get("repair_k").and_then(|s| s.parse().ok()).unwrap_or(1);
     let mode = match mode_s.as_str() {
         "needed" => ModeS::Needed,
-        "verify-fresh" | "verify-tampered" => ModeS::Verify,
+        "verify-fresh" | "verify-tampered" | "verify-stale" => ModeS::Verify,
         "clean" => ModeS::Clean,
         _ => ModeS::Build,
     };
@@ -443,7 +449,9 @@ pub fn run(case: &Case, ctx: &mut Ctx) -> CaseOutcome {
                 let s = &a.sources[rng.below(a.n())];
                 if let Some(d) = old.file(&s.path).cloned() {
                     let t = d.lossy().replace("temp body", "temp body of the earlier version, longer than now");
-                    let t = format!("earlier first line\n{t}");
+                    // verify-stale: where a temp body changed, nothing else did (a fresh output that
+                    // is computed from a temp file left as it was then equals the stored one)
+                    let t = if mode_s == "verify-stale" && t != d.lossy() { t } else { format!("earlier first line\n{t}") };
                     old.set_file(&s.path, B(t.into_bytes()));
                 }
             }
@@ -476,6 +484,17 @@ pub fn run(case: &Case, ctx: &mut Ctx) -> CaseOutcome {
                     image = now;
                 }
             }
+        }
+    }
+    if mode_s == "verify-stale" && ref_code == 0 {
+        // some stored output of the required closure is not what the sources now give
+        let stale = req.iter().any(|i| {
+            let o = &a.sources[*i].out;
+            tree::file_bytes(&image, o) != tree::file_bytes(&reference, o)
+        });
+        if stale {
+            tampered = true;
+            ctx.stats.count("sys.verify_over_stale_tree");
         }
     }
     let inv = build_inv(mode, 1);
@@ -583,6 +602,7 @@ pub fn run(case: &Case, ctx: &mut Ctx) -> CaseOutcome {
                 let (queue, res, image, a, inv) = (&queue, &res, &image, &a, &inv);
                 let (kind, repair, inputs) = (kind.clone(), repair.clone(), inputs.clone());
                 let twin = prop == "C09";
+                let write_set_only = prop == "C10";
                 sc.spawn(move || loop {
                     let pt = match queue.lock().unwrap().pop() {
                         Some(p) => p,
@@ -615,7 +635,7 @@ pub fn run(case: &Case, ctx: &mut Ctx) -> CaseOutcome {
                         l.reset(&after);
                         repair_codes.push(run_plain(l, &mk(ModeS::Build)).unwrap_or(-1));
                         repaired = Some(tree::snapshot(&l.root));
-                    } else if kind == "crash" && fired {
+                    } else if kind == "crash" && fired && !write_set_only {
                         let mk = |m: ModeS| Inv {
                             mode: m,
                             inputs: inputs.clone(),
@@ -656,7 +676,26 @@ pub fn run(case: &Case, ctx: &mut Ctx) -> CaseOutcome {
         ctx.stats.nontrivial.insert(mix(&[out.digest, crate::rng::hash_str(&r.point.spell())]));
         let mut fail: Option<(&str, String)> = None;
         let at = format!("{} of {} #{} ({} run, -j 1, pre-state {pre})", r.point.what, r.point.call, r.point.k, mode_s);
-        if kind == "crash" && prop == "C09" {
+        if kind == "crash" && prop == "C10" {
+            // C10: the tree a killed run leaves differs from the tree it found only at generated
+            // paths; a killed verify has not touched an output, a killed clean has only removed
+            let gen_paths = a.gen_all();
+            let outs: BTreeSet<String> = a.sources.iter().map(|s| s.out.clone()).collect();
+            for (p, ch) in tree::diff(&r.before, &r.after) {
+                let is_dir = matches!(r.before.get(&p), Some(Node::Dir)) || matches!(r.after.get(&p), Some(Node::Dir));
+                if is_dir {
+                    continue;
+                }
+                if !gen_paths.contains(&p) {
+                    out.violate("C10", "wrote-outside-own-outputs", format!("{at}: {ch:?} {p}, neither an output nor a temp target"));
+                } else if mode == ModeS::Verify && outs.contains(&p) {
+                    out.violate("C10", "verify-touched-output", format!("{at}: {ch:?} output {p}"));
+                } else if mode == ModeS::Clean && ch != tree::Change::Deleted {
+                    out.violate("C10", "clean-created-or-modified", format!("{at}: {ch:?} {p}"));
+                }
+            }
+            ctx.stats.count("sys.kill_runs_checked_for_write_set");
+        } else if kind == "crash" && prop == "C09" {
             // C09: same verdict and same bytes from --needed as from a normal build
             if let (Some(n), Some(b), [cn, cb]) = (&r.twin_needed, &r.repaired, r.repair_codes.as_slice()) {
                 if *cn == -9999 || *cb == -9999 {
